@@ -105,6 +105,12 @@ def _frames_spec(q):
     return [[f["t"], f["y"] if f["t"] == "message" else (f["x"] if f["t"] in ("add",) else "")] for f in q]
 
 
+def _conn_view(conn, up):
+    """Wormhole.tla StatusView: while the connection is down, "connected" (stale) and "connecting" (the retry timer has fired)
+    are not told apart - the model does not time ClientService's retries"""
+    return "down" if (not up and conn in ("connected", "connecting")) else conn
+
+
 def project_spec(st, bind=None):
     out = {}
     for c, cl in st["cs"].items():
@@ -123,6 +129,7 @@ def project_spec(st, bind=None):
             "sendq": [p[0] for p in cl["sendq"]], "orderq": [p[1] for p in cl["orderq"]],
             "events": ev,
             "errs": len(cl["errs"]) > 0,
+            "status": [_conn_view(cl["status"]["conn"], n["up"]), cl["status"]["key"], cl["status"]["code"]],
             "up": n["up"], "closing": n["closing"],
             "c2s": [[f["t"], f["x"] if f["t"] == "add" else ""] for f in n["c2s"]],
             "s2c": [[f["t"], f["y"] if f["t"] == "message" else ""] for f in n["s2c"]],
@@ -178,13 +185,15 @@ def project_real(world, bind):
         conn = world.live_conn(cl)
         out[c] = {
             "st": cl.states(),
-            "pend": list(b._M._pending_outbound.keys()),
-            "processed": sorted(b._M._processed),
-            "nextTx": b._next_tx_phase, "nextRx": b._next_rx_phase,
-            "sendq": [p for p, _ in b._S._queue], "orderq": [p for _, p, _ in b._O._queue],
+            # (private attributes: a refactored tree may create them later or elsewhere - that is a difference to report, not a crash)
+            "pend": list(getattr(b._M, "_pending_outbound", {}).keys()),
+            "processed": sorted(getattr(b._M, "_processed", ())),
+            "nextTx": getattr(b, "_next_tx_phase", -1), "nextRx": getattr(b, "_next_rx_phase", -1),
+            "sendq": [p for p, _ in getattr(b._S, "_queue", ())], "orderq": [p for _, p, _ in getattr(b._O, "_queue", ())],
             "events": ev,
             "errs": any(n == c for n, _, _ in world.internal) or any(
                 type(e).__name__ not in DOC_ERRS for _, e in cl.api_errors),
+            "status": [_conn_view(cl.status()[0], conn is not None)] + cl.status()[1:],
             "up": conn is not None, "closing": bool(conn and conn.closing),
             "c2s": [[f["type"], f.get("phase", "") if f["type"] == "add" else ""] for f in (conn.c2s if conn else [])
                     if f["type"] != "bind" or True],
